@@ -13,6 +13,7 @@ import (
 	"sort"
 	"strings"
 	"sync"
+	"sync/atomic"
 	"testing"
 	"testing/synctest"
 	"time"
@@ -85,6 +86,8 @@ type Sim struct {
 
 	violation *Violation
 
+	expired atomic.Bool // set by the worker's wall-clock watchdog (real time, outside the bubble)
+
 	// KnownKeys are violation classes recorded as open known findings: they are counted,
 	// not treated as the run's violation, so that the rest of the run is still explored.
 	KnownKeys map[string]bool
@@ -98,6 +101,7 @@ const traceKeep = 300
 
 // liveTrace streams every log line to stderr as it is produced (debugging crashes).
 var liveTrace = os.Getenv("VSIM_LIVE_TRACE") != ""
+var debugActs = os.Getenv("VSIM_DEBUG_ACTS") != ""
 
 func NewSim(t *testing.T, seed uint64, replay []int, replaying bool) *Sim {
 	s := &Sim{
@@ -291,6 +295,11 @@ func (s *Sim) Violation() *Violation {
 
 func (s *Sim) Failed() bool { return s.Violation() != nil }
 
+// Expired reports that the run has used up its wall-clock budget; harness loops stop and the run
+// is counted inconclusive (never a violation).
+func (s *Sim) Expired() bool { return s.expired.Load() }
+func (s *Sim) Expire()       { s.expired.Store(true) }
+
 // Park blocks the calling system goroutine until the scheduler releases it.
 // The name is identity:seam:label#k with a per-name counter, so that it does not
 // depend on the order in which goroutines happen to arrive.
@@ -387,7 +396,21 @@ func (s *Sim) Pick(acts []Action) {
 	a := acts[s.ChooseW("step", ws)]
 	s.Steps++
 	s.flushStep()
-	s.Logf("[%d] %s", s.Steps, a.Name)
+	// the size and a digest of the enabled set are part of the log: a divergence shows up at the
+	// first step whose enabled set differs, not only when the chosen action differs
+	var hsum uint32 = 2166136261
+	for _, x := range acts {
+		for i := 0; i < len(x.Name); i++ {
+			hsum = (hsum ^ uint32(x.Name[i])) * 16777619
+		}
+		hsum = (hsum ^ '|') * 16777619
+	}
+	s.Logf("[%d] %s (of %d, set %08x)", s.Steps, a.Name, len(acts), hsum)
+	if debugActs {
+		for _, x := range acts {
+			s.Logf("      enabled: %s", x.Name)
+		}
+	}
 	s.flushStep()
 	a.Do()
 }
@@ -409,11 +432,20 @@ func (s *Sim) Stopped() bool { s.mu.Lock(); defer s.mu.Unlock(); return s.stoppe
 // SelectOrder is the seeded select pre-pass order (see vinst): a permutation of the
 // cases derived from (seed, site, per-site visit counter). It does not consume the choice
 // log: a select is visited far more often than it has several ready cases.
-func (s *Sim) SelectOrder(n int, site string) []int {
+func (s *Sim) SelectOrder(n int, site string) []int { return s.selectOrder("", n, site) }
+
+func (s *Sim) selectOrder(id string, n int, site string) []int {
+	site = id + "|" + site
 	s.mu.Lock()
 	if s.stopped {
 		s.mu.Unlock()
 		return nil
+	}
+	for _, d := range s.dead {
+		if id == d || strings.HasPrefix(id, d+".") {
+			s.mu.Unlock()
+			return nil // a dying process: no pre-pass, and no effect on anybody's counters
+		}
 	}
 	s.selCtr[site]++
 	c := s.selCtr[site]
@@ -432,7 +464,10 @@ func (s *Sim) Attach() {
 }
 
 // AttachSelect installs only the select pre-pass (statement and lock yields pass through).
-func (s *Sim) AttachSelect() { vsel.OrderFn = s.SelectOrder }
+func (s *Sim) AttachSelect() {
+	vsel.OrderFn = s.SelectOrder
+	vsel.OrderCtxFn = func(ctx context.Context, n int, site string) []int { return s.selectOrder(Ident(ctx), n, site) }
+}
 
 // AttachCases parks a goroutine at the start of every instrumented select case body, after
 // handing the received value to observe (may be nil). Only goroutines whose context carries an
@@ -451,6 +486,7 @@ func (s *Sim) AttachCases(observe func(ctx context.Context, site string, v any))
 
 func Detach() {
 	vsel.OrderFn = nil
+	vsel.OrderCtxFn = nil
 	vsel.YieldFn = nil
 	vsel.CaseFn = nil
 }
